@@ -232,6 +232,9 @@ def gen_exprs(status_out=None):
             hits = _find(fn, locator)
             env = _single_assignments(fn)
             cands = []
+            if len(hits) != 1:
+                # assigned on several paths (an if / elif chain, a loop): no single expression stands for the value
+                raise Untranslatable("%d assignments / returns match in %s" % (len(hits), qual))
             for node, val in hits:
                 # as written first; if that does not mention exactly the expected state variables, with the
                 # single-assignment locals of the function inlined
@@ -250,6 +253,8 @@ def gen_exprs(status_out=None):
                 status[lean] = dict(located=True, where=where, lean=expr)
             else:
                 status[lean] = dict(located=False, reason="%d translatable candidate(s) in %s" % (len(cands), qual))
+        except Untranslatable as ex:
+            status[lean] = dict(located=False, reason=str(ex))
         except Exception as ex:  # function moved / renamed
             status[lean] = dict(located=False, reason="%s: %s" % (type(ex).__name__, ex))
         if expr is None:
